@@ -1,7 +1,7 @@
 (* C10/Trace.v — the dispatcher over proved step cases and the induction over the history. *)
 From Coq Require Import List NArith ZArith Bool Lia.
 Import ListNotations.
-Require Import Base.Wire Base.PyStr C10.Model C10.Lemmas C10.Handlers C10.SrvLemmas C10.Feed C10.Inv C10.Frame C10.Sim C10.Agree C10.Step C10.Step2 C10.StepMode C10.Step3 C10.Step4 C10.Step5 C10.Step6 C10.Step7.
+Require Import Base.Wire Base.PyStr C10.Model C10.Lemmas C10.Handlers C10.SrvLemmas C10.Feed C10.Inv C10.Frame C10.Sim C10.Agree C10.Step C10.Step2 C10.StepMode C10.Step3 C10.Step4 C10.Step5 C10.Step6 C10.Step7 C10.Keys C10.Step8 C10.Step9 C10.Step10.
 Open Scope N_scope.
 
 Section Trace.
@@ -9,29 +9,14 @@ Variables (nick0 prefix0 : str) (uh : bool).
 Hypothesis Hnick0 : valid_nick nick0 = true.
 Notation fa := (feed_all nick0 prefix0).
 
-(* ---- the actions whose step case is proved; the bot's own JOIN only into a channel nobody is on ---- *)
-Definition proved_step (s : srv) (a : action) : bool :=
-  match a with
-  | AConnect _ _ _ => true
-  | ATopic _ _ _ => true
-  | AJoin n chans => if feq n (s_me s) then fresh_targets s chans else true
-  | APart _ _ => true
-  | AKick _ _ _ => true
-  | AQuit _ => true
-  | ANick _ _ => true
-  | AChghost _ _ _ => true
-  | AWho _ => true
-  | AReset => true
-  | AMode _ _ chgs => forallb canon_chg chgs
-  | _ => false
-  end.
-Lemma step_proved s b a : Inv s b -> proved_step s a = true ->
+(* ---- every action of [dom] has its step case ---- *)
+Lemma step_proved s b a : Inv s b -> skeys s -> action_dom a = true ->
   let '(s', ms) := step nick0 true uh s a in Inv s' (fa b ms).
 Proof.
-  intros I Hp. destruct a; try discriminate.
+  intros I K Hp. destruct a; try discriminate.
   - apply step_connect. exact I.
-  - cbn [proved_step] in Hp. destruct (feq n (s_me s)) eqn:E.
-    + apply step_join_self_multi; assumption.
+  - destruct (feq n (s_me s)) eqn:E.
+    + apply step_join_self_any; assumption.
     + apply step_join_other_multi; assumption.
   - apply step_part_multi. exact I.
   - apply step_kick. exact I.
@@ -40,25 +25,25 @@ Proof.
   - apply step_mode; assumption.
   - apply step_topic. exact I.
   - apply step_chghost. exact I.
+  - cbn [action_dom] in Hp. subst multiprefix. apply step_names; assumption.
   - apply step_who. exact I.
   - apply step_reset; assumption.
 Qed.
-Fixpoint run_proved (s : srv) (acts : list action) : bool :=
-  match acts with
-  | [] => true
-  | a :: r => proved_step s a && run_proved (fst (step nick0 true uh s a)) r
-  end.
-Lemma trace_inv : forall acts s b, Inv s b -> run_proved s acts = true ->
+Lemma trace_inv : forall acts s b, Inv s b -> skeys s -> dom acts = true ->
   all_agree nick0 prefix0 true uh s b acts = true.
 Proof.
-  induction acts as [|a r IH]; intros s b I Hr; [reflexivity|].
-  cbn [run_proved] in Hr. apply andb_true_iff in Hr as [Hp Hr].
+  induction acts as [|a r IH]; intros s b I K Hr; [reflexivity|].
+  unfold dom in Hr. cbn [forallb] in Hr. apply andb_true_iff in Hr as [Hp Hr].
   cbn [all_agree]. unfold sim_step. cbn [fst snd].
-  pose proof (step_proved s b a I Hp) as Hs.
-  destruct (step nick0 true uh s a) as [s' ms]. cbn [fst] in Hr.
+  pose proof (step_proved s b a I K Hp) as Hs.
+  pose proof (step_skeys nick0 true uh s a (inv_wf s b I) K) as K'.
+  destruct (step nick0 true uh s a) as [s' ms]. cbn [fst] in K'.
   rewrite (Agree.Inv_agree s' _ Hs). cbn [andb]. apply IH; assumption.
 Qed.
 End Trace.
+
+Lemma skeys_start nick0 u h : skeys (srv0 nick0 u h).
+Proof. intros c ch Hg. discriminate. Qed.
 
 Lemma Inv_start nick0 prefix0 u h : valid_nick nick0 = true -> valid_uh u = true -> valid_uh h = true ->
   Inv (srv0 nick0 u h) (reset nick0 prefix0).
@@ -86,10 +71,9 @@ Definition trace_example : list action :=
    ANick n_Foo n_FOO; AJoin n_TEST [c_b; [35; 122]; c_A]; AJoin n_bar [c_B; c_a; [35; 122]]; ANick n_bar n_Baz;
    AChghost n_Baz [118] [119]; AWho c_a; ATopic n_Baz c_B [121; 111]; AKick n_foo c_a [n_Baz; n_bar];
    ANick n_test n_Test2; APart n_Baz [c_b; c_a; c_B]; AMode n_Test2 c_b [(false, 108, None); (true, 115, None)];
-   AKick n_FOO c_A [n_Test2]; AQuit n_foo; AReset; AJoin n_test [c_a]; AJoin n_Baz [c_A]].
+   AKick n_FOO c_A [n_Test2]; AJoin n_Test2 [c_a; [35; 113]]; ANames c_A true true; AQuit n_foo; AReset; AJoin n_test [c_a]; AJoin n_Baz [c_A]].
 Example trace_example_ok :
-  run_proved n_test true start trace_example = true
-  /\ dom trace_example = true
+  dom trace_example = true
   /\ all_agree n_test p_test true true start bot_start trace_example = true
   /\ (let '(s, b) := final n_test p_test true true start bot_start trace_example in
       length (view_chans s) = 1%nat /\ length (view_hosts s) = 2%nat).
